@@ -111,7 +111,7 @@ Clauses(pre, e, post) == [
   C09_RateFreshUnfitted |-> (e.op = "rate" /\ Ok(e) /\ ~e.pseudo
                              /\ Sane(pre) /\ pre.res = "none"
                              /\ e.expect # "none")
-                              => e.ret = e.expect,
+                              => (e.ret = e.expect \/ e.ret = e.expect2),
   C09_RateRange      |-> (e.op = "rate" /\ Ok(e) /\ e.tree)
                            => e.retnum.m1 \/ e.retnum.inrange,
   C09_RateFrame      |-> (e.op \in {"rate", "rate_passive", "rate_fault",
